@@ -128,7 +128,7 @@ class C02(Prop):
     id = "C02"
     corr_module = "Corr.C02Corr"
     preds = ("corr", "spec")
-    quick_n = 1800
+    quick_n = 1200
     thorough_n = 20000
     shard_size = 250
     rule = ("scripted runs of the real Runner: stdout/stderr byte strings built from 1-4-byte UTF-8 "
@@ -369,7 +369,7 @@ class C02(Prop):
         for n in range(0, 4):
             for t in itertools.product(BOUNDARY25, repeat=n):
                 items.append(("utf-8", bytes(t)))
-        nrand = 4000 if tier == "quick" else 100000
+        nrand = 2000 if tier == "quick" else 100000
         for _ in range(nrand):
             k = rng.randint(4, 24)
             if rng.random() < 0.5:
